@@ -172,8 +172,12 @@ Ltac wf_leaf :=
 (* [unf] unfolds the instruction bodies into matches over the record fields *)
 Ltac safe_intro unf :=
   let p := fresh "p" in let w := fresh "w" in let s := fresh "s" in
-  let W := fresh "W" in let E := fresh "E" in
-  intros p w s W E;
+  let W := fresh "W" in
+  intros p w s W;
+  lazymatch goal with
+  | |- envelope _ -> _ => let E := fresh "E" in intro E; unfold envelope in E
+  | |- _ => idtac
+  end;
   lazymatch goal with
   | |- ok_ws (pure _ _ _ _) => apply ok_pure
   | |- ok_ws (purep _ _ _ _) => apply ok_purep
@@ -181,10 +185,18 @@ Ltac safe_intro unf :=
   end;
   destruct s as [sbool scode sexec sfloat sindex sint sname sbvec sfvec sivec sinput soutput sgraph sbind scfg squote ssend];
   destruct W as [Wint Wivec Windex Wcode Wexec Wbind Winput Woutput Wgraphs Wcfg];
-  unfold envelope in E; st_cbn_all;
+  st_cbn_all;
   unf.
 Ltac safe_body unf := safe_intro unf; split_goal_matches; wf_leaf.
 
 Create HintDb safe_special discriminated.
+(* decide by computation whether the entry's name is one of [env_names] *)
+Ltac entry_open :=
+  unfold entry_safe; cbn [fst snd];
+  match goal with
+  | |- context [needs_env ?n] =>
+      let b := eval vm_compute in (needs_env n) in
+      change (needs_env n) with b; cbv iota
+  end.
 Ltac table_walk unf :=
-  repeat (apply Forall_cons; [cbn [snd]; first [solve [auto with safe_special] | solve [safe_body unf]]|]); try apply Forall_nil.
+  repeat (apply Forall_cons; [entry_open; first [solve [auto with safe_special] | solve [safe_body unf]]|]); try apply Forall_nil.
